@@ -1025,9 +1025,12 @@ func RepeatCR3(o RepeatOpts) []byte {
 func ManyTiny(kind, sub, n, junk int) []byte {
 	switch kind {
 	case 0:
-		typ := []string{"hdlr", "iref", "iinf"}[sub%3]
-		inner := make([]byte, 0, 8*n+64)
+		typ := []string{"hdlr", "iref", "iinf", "iinf"}[sub%4]
+		inner := make([]byte, 0, 12*n+64)
 		one := Box(typ)
+		if sub%4 == 3 {
+			one = Box(typ, be32(0)) // ends behind the flags word
+		}
 		for i := 0; i < n; i++ {
 			inner = append(inner, one...)
 		}
@@ -1036,6 +1039,12 @@ func ManyTiny(kind, sub, n, junk int) []byte {
 		return append(out, Box("mdat", make([]byte, 64))...)
 	case 1:
 		one := Box("uuid", uuidPreview, be32(0), be32(1), Box("PRVW", be32(0), be16(1), be16(160), be16(120), be16(1), be32(uint32(junk))))
+		switch sub % 4 {
+		case 1:
+			one = Box("uuid") // no room for the uuid itself
+		case 2:
+			one = Box("uuid", uuidPreview) // the preview uuid and nothing behind it
+		}
 		moov := Box("uuid", uuidCanonMeta, Box("CNCV", []byte("CanonCR3_001/00.09.00/00.00.00")))
 		for i := 0; i < n; i++ {
 			moov = append(moov, one...)
